@@ -8,14 +8,20 @@ Engine A (explicit-state BFS over operation histories) on the real `Telomere`, w
 
 The oracle is written from the property statement only (legal-move relation, tick result,
 length range, Hayflick bound, renewal refusal, forced senescence, every call returns, and - two
-lifecycles in one process are two lifecycles - no operation is visible on another instance); the only
-implementation fields read are those named in the property's anchors, and only for the
-canonical state key (dedup), never for a verdict.
+lifecycles in one process are two lifecycles - no operation is visible on another instance). The lifecycle is
+driven and observed through its public API only. The two places where the harness needs the whole internal state -
+copying a state (`clone`) and the hidden time marks in the canonical key (the last-activity mark has no public
+accessor) - walk `vars()` generically, by value type (dataclasses, containers, enums, datetimes, locks, callables),
+never by attribute name; both are used for dedup / speed only, never for a verdict.
 """
 from __future__ import annotations
 
+import collections
+import copy
 import datetime as _dt
+import enum
 import sys
+import threading
 
 from mc import common, explore, sched, vclock
 
@@ -59,7 +65,7 @@ _FRESH_OBS = {}       # configuration -> observation of the first lifecycle cons
 
 
 class State:
-    __slots__ = ("cfg", "tel", "cb", "clock", "unit_true", "ref_errors", "t_start", "t_any", "by", "pending")
+    __slots__ = ("cfg", "tel", "cb", "clock", "unit_true", "ref_errors", "t_start", "t_any", "by", "pending", "obs")
 
 
 class Bystanders:
@@ -114,11 +120,120 @@ def _quiet(fn, *a):
         sys.stdout = out
 
 
-# fields of Telomere that make up its state (property anchors: _phase, _telomere_length,
-# _error_count, _operations_count, timing fields). Copied by clone(); a start-up self-check
-# compares clone against history replay so a field added later cannot silently escape.
-_FIELDS = ("_telomere_length", "_phase", "_senescence_reason", "_created_at", "_started_at", "_last_activity",
-           "_terminated_at", "_operations_count", "_error_count", "_renewal_count")
+# ---- generic (name-free) access to the internal state ---------------------------------------------------------
+# Values are classified by TYPE only. Records of the public type LifecycleEvent are values the library itself hands
+# out uncopied (get_events), so they are shared, not copied; for the state key they are skipped (a log no code path
+# reads; their timestamps are wall-clock defaults bound at import time).
+_EPOCH = vclock.VClock().now()          # every virtual clock starts here; earlier datetimes are not virtual time
+_RAW_LOCKS = (type(threading.Lock()), type(threading.RLock()))
+_LOG_RECORD = tuple(c for c in (getattr(telo, "LifecycleEvent", None),) if isinstance(c, type))
+_ATOMS = (int, float, complex, str, bytes, bool, type(None), enum.Enum, _dt.date, _dt.time, _dt.timedelta,
+          _dt.tzinfo, type, range, frozenset) + _LOG_RECORD
+
+
+_K_ATOM, _K_TIME, _K_SEQ, _K_DICT, _K_OBJ, _K_LOCK, _K_CALL, _K_SET, _K_OTHER = range(9)
+_KINDS = {}
+
+
+def _kind(v):
+    """Classification of a value by its type (cached per exact type)."""
+    t = type(v)
+    k = _KINDS.get(t)
+    if k is None:
+        if issubclass(t, _dt.datetime):
+            k = _K_TIME
+        elif issubclass(t, _ATOMS):
+            k = _K_ATOM
+        elif issubclass(t, (sched.CoopLock,) + _RAW_LOCKS):
+            k = _K_LOCK
+        elif t in (list, tuple, collections.deque):
+            k = _K_SEQ
+        elif t is dict:
+            k = _K_DICT
+        elif t is set:
+            k = _K_SET
+        elif callable(v):
+            k = _K_CALL
+        elif isinstance(getattr(v, "__dict__", None), dict) and not hasattr(t, "__slots__"):
+            k = _K_OBJ
+        else:
+            k = _K_OTHER
+        _KINDS[t] = k
+    return k
+
+
+def _copy(v):
+    """Deep copy by value of one piece of internal state; locks are re-created (not held), callables shared."""
+    k = _KINDS.get(type(v))
+    if k is None:
+        k = _kind(v)
+    if k <= _K_TIME or k == _K_CALL:
+        return v
+    if k == _K_SEQ:
+        t = type(v)
+        items = [_copy(x) for x in v]
+        return items if t is list else (tuple(items) if t is tuple else collections.deque(items, v.maxlen))
+    if k == _K_DICT:
+        return {key: _copy(x) for key, x in v.items()}
+    if k == _K_OBJ:
+        new = object.__new__(type(v))
+        nd = new.__dict__
+        for key, x in v.__dict__.items():
+            nd[key] = _copy(x)
+        return new
+    if k == _K_LOCK:
+        return sched.CoopLock(v.reentrant, "copy") if isinstance(v, sched.CoopLock) else type(v)()
+    if k == _K_SET:
+        return set(v)
+    return copy.deepcopy(v)
+
+
+def _transplant(src, dst):
+    """Make the freshly constructed lifecycle `dst` (own callbacks, own locks) carry the state of `src`."""
+    sd, dd = vars(src), vars(dst)
+    if sd.keys() != dd.keys():
+        for key in [key for key in dd if key not in sd]:
+            del dd[key]
+    kinds = _KINDS
+    for key, v in sd.items():
+        k = kinds.get(type(v))
+        if k is None:
+            k = _kind(v)
+        if k <= _K_TIME:
+            dd[key] = v
+        elif (k == _K_LOCK or k == _K_CALL) and key in dd:
+            continue            # locks and notification sinks stay those of dst
+        elif key in dd and _kind(dd[key]) == _K_CALL:
+            continue
+        else:
+            dd[key] = _copy(v)
+
+
+def _time_marks(v, now, cap, out, path=()):
+    """Every virtual-time datetime reachable from v as (where, capped whole seconds before `now`), in traversal
+    order; `where` is the chain of dict keys / positions leading to it, used as an opaque label only. With no time
+    limit configured (cap None) only the presence of a mark counts."""
+    kinds = _KINDS
+    k = kinds.get(type(v))
+    if k is None:
+        k = _kind(v)
+    if k == _K_DICT or k == _K_OBJ:
+        items = (v if k == _K_DICT else v.__dict__).items()
+    elif k == _K_SEQ:
+        items = enumerate(v)
+    else:
+        return
+    for key, x in items:
+        kx = kinds.get(type(x))
+        if kx is None:
+            kx = _kind(x)
+        if kx == _K_ATOM:
+            continue
+        if kx == _K_TIME:
+            if x >= _EPOCH:
+                out.append((path + (key,), min(cap, int((now - x).total_seconds())) if cap else True))
+        elif kx <= _K_OBJ and len(path) < 6:
+            _time_marks(x, now, cap, out, path + (key,))
 
 
 def _secs(now, then, cap):
@@ -196,6 +311,7 @@ class Model:
         vclock.use(st.clock)
         st.pending = []
         st.by = None
+        st.obs = None           # public observation made after the last operation (None: not observed yet)
         if not bystanders:
             st.tel = _mk(st.cfg, st.cb)
         else:
@@ -247,12 +363,11 @@ class Model:
         c.clock = vclock.VClock(start=st.clock.now())
         vclock.use(c.clock)
         c.tel = _mk(c.cfg, c.cb)
-        for f in _FIELDS:
-            setattr(c.tel, f, getattr(st.tel, f))
-        c.tel._events = list(st.tel._events)
+        _transplant(st.tel, c.tel)
         c.unit_true, c.ref_errors, c.t_start, c.t_any = st.unit_true, st.ref_errors, st.t_start, st.t_any
         c.by = st.by
         c.pending = list(st.pending)
+        c.obs = st.obs
         return c
 
     # ---- alphabet ---------------------------------------------------------------
@@ -274,14 +389,26 @@ class Model:
 
     # ---- canonical state ----------------------------------------------------------
     def canon(self, st):
+        """Public observations (phase by every accessor, length, counters, age) + the hidden time marks found
+        generically in vars() + the reference counters of the oracle."""
         t = st.tel
+        vclock.use(st.clock)
         now = st.clock.now()
         lcap, icap = life_cap(st.cfg), idle_cap(st.cfg)
+        try:
+            o = st.obs or observe(t)        # no operation since st.obs was taken; a clock advance does not change it
+            age = t.get_age()
+            marks = []
+            # a mark can matter only through "elapsed >= a configured limit": capped at the largest limit
+            _time_marks(vars(t), now, max(lcap or 0, icap or 0) or None, marks)
+        except Exception as e:  # noqa: BLE001 - only after a violating (never expanded) transition
+            return ("unobservable", type(e).__name__, str(e))
         return (
-            t._phase.value, t._telomere_length, t._error_count, t._operations_count,
-            t._started_at is not None, t._last_activity is not None,
-            _secs(now, t._started_at, lcap) if lcap else None,
-            _secs(now, t._last_activity, icap) if icap else None,
+            o["phase"], o["status_phase"], o["stats_phase"], o["is_active"], o["is_operational"],
+            o["length"], o["remaining"], o["stats_length"], o["errors"], o["ops"],
+            age is not None,
+            min(lcap, int(age.total_seconds())) if lcap and age is not None else None,
+            tuple(marks),
             min(st.unit_true, st.cfg[0] + 1), min(st.ref_errors, st.cfg[1]),
             _secs(now, st.t_start, lcap) if lcap else st.t_start is not None,
             _secs(now, st.t_any, icap) if icap else None,
@@ -290,7 +417,8 @@ class Model:
 
     def observe(self, st):
         t = st.tel
-        return (t._phase.value, t._telomere_length, min(t._error_count, 4))
+        vclock.use(st.clock)
+        return (t.get_phase().value, t.get_status().telomere_length, min(t.get_statistics()["error_count"], 4))
 
     # ---- one transition + oracle ----------------------------------------------------
     def step(self, st, op):
@@ -303,6 +431,7 @@ class Model:
         max_ops, thr, renewal, life, idle, cbs, _silent = st.cfg
         v = list(st.pending)
         before = observe(t)
+        st.obs = None
         del st.cb[:]
         now = st.clock.now()
         out = sys.stdout
@@ -335,7 +464,7 @@ class Model:
             return v + [(f"raises:{kind}:{type(e).__name__}", f"{kind} raised {type(e).__name__}: {e}")]
         finally:
             sys.stdout = out
-        after = observe(t)
+        after = st.obs = observe(t)
         links = list(st.cb)
         pb, pa = before["phase"], after["phase"]
 
